@@ -776,9 +776,23 @@ class Gen:
             assocs = []
             for _ in range(rng.randint(0, 2)):
                 al, a = self.ident()
-                q = rng.choice([None, 'N', 'R', 'S', 'L', 'D', 'P'])
-                assocs.append((al + [G, ('p', '('), G] + ([('pk', q), G] if q else []) + [('p', ')')],
-                               N('ActionAssociation', ('name', a), ('qualifier', OPT(A(q)) if q else NONE), ('indicators', L([])))))
+                q = rng.choice([None, 'N', 'R', 'S', 'L', 'D', 'P', 'SD', 'DS', 'SL', 'P1', 'P0'])
+                qlex, qt = ([('pk', q), G] if q else []), (OPT(A(q)) if q else NONE)
+                if q in ('SD', 'DS', 'SL', 'P1', 'P0'):
+                    # the qualifiers with a time: `SD , T#1s` or `SD , variable`
+                    self.features.add('sfc:timed-qualifier')
+                    if rng.random() < 0.5:
+                        tl, tt = self.constant(['dur']); time = tt
+                    else:
+                        tl, tv = self.ident(); time = T('VariableName', tv)
+                    qlex = [('pk', q), G, ('p', ','), G] + tl + [G]
+                    qt = SOME(T({'P1': 'PR', 'P0': 'PF'}.get(q, q), time))
+                inds = [self.ident() for _ in range(rng.choice([0, 0, 1, 2]))] if q else []
+                ilex = []
+                for (il_, it_) in inds: ilex += [('p', ','), G] + il_ + [G]
+                if inds: self.features.add('sfc:indicators')
+                assocs.append((al + [G, ('p', '('), G] + qlex + ilex + [('p', ')')],
+                               N('ActionAssociation', ('name', a), ('qualifier', qt), ('indicators', L([i_[1] for i_ in inds])))))
             # B.1.6: {action_association ';'}
             l = []
             for a in assocs: l += a[0] + [G, ('p', ';'), NL]
